@@ -822,6 +822,20 @@ func TestVerif_C01_Trace(t *testing.T) {
 	for run := 0; run < reloadRuns; run++ {
 		esA, mkReq := g.scenario(&slow)
 		esB, _ := g.scenario(&slow)
+		if run%2 == 1 && len(esA) > 0 {
+			// the new list is a permutation / a one-entry edit of the old one (same capacity)
+			esB = append([]vf01GenEntry{}, esA...)
+			g.rnd.Shuffle(len(esB), func(i, j int) { esB[i], esB[j] = esB[j], esB[i] })
+			switch g.rnd.IntN(3) {
+			case 0:
+				esB = esB[:len(esB)-1]
+			case 1:
+				extra, _ := g.scenario(&slow)
+				if len(extra) > 0 {
+					esB[g.rnd.IntN(len(esB))] = extra[0]
+				}
+			}
+		}
 		load := func(es []vf01GenEntry) []conf.AuthInternalUser {
 			js := make([]vf01JSUser, len(es))
 			for i, e := range es {
